@@ -172,7 +172,10 @@ int cif_loop_set_category(cif_loop_tp *loop, const UChar *category) {
     cif_container_tp *container = loop->container;
     UChar *category_temp;
 
-    if (category == NULL) {
+    if ((loop->category != NULL) && (*(loop->category) == 0)) {
+        /* the scalar loop's category cannot be changed, not even to NULL */
+        return CIF_RESERVED_LOOP;
+    } else if (category == NULL) {
         category_temp = NULL;
     } else if (*category == 0) {
         return CIF_RESERVED_LOOP;
